@@ -13,7 +13,7 @@ rs   n:<name> <qtype> <from> ips:<addrs> rx:<ids>            → hit:<byte> | no
 cfg  <nUp> <reqfb> <reqrules> <respfb> <resprules> [urls:…]  → ok | builderr
 dq   n:<host> <4|6|46> rx:<ids>    daedns.Router.LookupIPAddr → per asked type: <qtype>=u<k> | <qtype>=pass
 depth <N>                          MaxDnsLookupDepth of the code under test → ok
-ask  <dst> <isResp> <q|noq> n:<name> <qtype> rx:<ids> ip:<0|1> seed:<entries> ans:<table>
+ask  <dst> <isResp> <q|noq> n:<name> <qtype> rx:<ids> ip:<0|1> cl:<class> seed:<entries> ans:<table>
                                                              → trace=… reply=… | cache=… err=…
    (the part after " | " is diagnostic: the check compares it but does not call a difference a violation;
     the response cache is threaded through the asks of one `cfg` scenario)
@@ -144,6 +144,9 @@ structure St where
   nUp : Nat := 0
   maxDepth : Nat := 3
   cache : Cache := []       -- the response cache of the running scenario
+  stale : List CacheKey := []
+  optimistic : Bool := false
+  dead : List Nat := []
   explain : Bool := false   -- coverage mode: print a classification of the op instead of the answer
   reqBuilt : Option C11.Built := none    -- the REAL domain matcher (C11 model) built from the request program's AddSet calls
   respBuilt : Option C11.Built := none
@@ -152,6 +155,7 @@ structure St where
 
 def parseRec (s : String) : Option Rec :=
   if s == "O" then some .other
+  else if s == "A0" then some .aNil
   else if hasPrefix s "A:" then (hexToNat? (dropS s 2)).map .a
   else if hasPrefix s "AAAA:" then (hexToNat? (dropS s 5)).map .aaaa
   else none
@@ -163,6 +167,7 @@ def hex (w n : Nat) : String :=
   String.ofList ((List.range w).map fun i => nibble (n / 16 ^ (w - 1 - i) % 16))
 
 def recStr : Rec → String
+  | .aNil => "A0"
   | .a x => "A:" ++ hex 8 x
   | .aaaa x => "AAAA:" ++ hex 32 x
   | .other => "O"
@@ -180,7 +185,7 @@ def parseScope (s : String) : Option Scope :=
 def errStr : Err → String
   | .notRequest => "notrequest" | .routeFail => "routefail" | .badUpstream => "badupstream"
   | .tooDeep => "toodeep" | .forwardFail => "forwardfail" | .notResponse => "notresponse"
-  | .questionMismatch => "questionmismatch"
+  | .questionMismatch => "questionmismatch" | .upstreamInit => "upstreaminit"
 
 /-- the as-is resolver is the client's own destination `9.9.9.<dst>` -/
 def upStr (dst : Nat) : UpRef → String
@@ -193,23 +198,25 @@ def replyStr : Reply → String
   | .error _ => "err"            -- the error class is diagnostic (printed after " | ")
 
 def keyLine (e : CacheKey × List Rec) : String :=
-  s!"{String.ofList e.1.name}/{e.1.qtype}/{scopeStr e.1.scope}={recsStr e.2}"
+  s!"{String.ofList e.1.name}/{e.1.qtype}{if e.1.cls == 1 then "" else s!"#{e.1.cls}"}/{scopeStr e.1.scope}={recsStr e.2}"
 
 def upperStr (s : List Char) : List Char := s.map Char.toUpper
 
-/-- seed entry `<sel>/<scope>/<recs>`; sel: s = same name and type, o = other name, t = other type -/
-def parseSeed (q : Question) (s : String) : Option (CacheKey × List Rec) := do
-  match s.splitOn "/" with
-  | [sel, sc, rs] =>
-    let scope ← parseScope sc
-    let recs ← parseRecs rs
-    let (n, t) ← match sel with
-      | "s" => some (canonName q.name, q.qtype)
-      | "o" => some ("other.test.".toList, q.qtype)
-      | "t" => some (canonName q.name, (q.qtype + 1) % 65536)
-      | _ => none
-    pure (⟨n, t, scope⟩, recs)
-  | _ => none
+/-- seed entry `<sel>/<scope>/<recs>[/S]`; sel: s = same name and type, o = other name, t = other type;
+`S`: the entry is expired but inside the stale window.  Seeds are class-IN entries. -/
+def parseSeed (q : Question) (s : String) : Option ((CacheKey × List Rec) × Bool) := do
+  let (sel, sc, rs, st) ← match s.splitOn "/" with
+    | [sel, sc, rs] => some (sel, sc, rs, false)
+    | [sel, sc, rs, "S"] => some (sel, sc, rs, true)
+    | _ => none
+  let scope ← parseScope sc
+  let recs ← parseRecs rs
+  let (n, t) ← match sel with
+    | "s" => some (canonName q.name, q.qtype)
+    | "o" => some ("other.test.".toList, q.qtype)
+    | "t" => some (canonName q.name, (q.qtype + 1) % 65536)
+    | _ => none
+  pure ((⟨n, t, scope, 1⟩, recs), st)
 
 /-- answer entry `<depth>.<up>=<resp>`; resp = `F` | `<r|q><s|e>/<E|U|N|D|T|C>/<answer recs>/<authority recs>/<additional recs>` -/
 def parseAns (q? : Option Question) (s : String) : Option ((Nat × UpRef) × Option Resp) := do
@@ -227,15 +234,16 @@ def parseAns (q? : Option Question) (s : String) : Option ((Nat × UpRef) × Opt
           let extra ← parseRecs exs
           let isR := fl.toList.contains 'r'
           let ok := fl.toList.contains 's'
+          let z := fl.toList.contains 'z'
           let rq ← match qv with
             | "E" => some q?
             | "U" => some (q?.map fun q => { q with name := upperStr q.name })
             | "N" => some none
             | "D" => some (q?.map fun q => { q with name := "evil.test.".toList, isIp := false })
             | "T" => some (q?.map fun q => { q with qtype := (q.qtype + 1) % 65536 })
-            | "C" => some (q?.map fun q => { q with qclass := 3 })
+            | "C" => some (q?.map fun q => { q with qclass := if q.qclass == 3 then 1 else 3 })
             | _ => none
-          pure ((d, u), some { isResponse := isR, q := rq, recs := recs, rcodeOk := ok, ns := ns, extra := extra })
+          pure ((d, u), some { isResponse := isR, q := rq, recs := recs, rcodeOk := ok, ns := ns, extra := extra, ttl0 := z })
         | _ => none
     | _ => none
   | _ => none
@@ -351,36 +359,59 @@ def handleLine (st : St) (line : String) : St × String :=
     | some n, some rfb, some rrs, some sfb, some srs =>
       let P := compileRequest rrs rfb
       let Q := compile srs sfb
+      let dead := ((words line).filterMap fun t => parseList "dead:" t).flatten.filterMap fun d => (dropS d 1).toNat?
       ({ st with reqSrc := rrs, reqFb := rfb, reqProg := P, respSrc := srs, respFb := sfb, respProg := Q, nUp := n,
-                 cache := [] },
+                 cache := [], stale := [], optimistic := (words line).contains "opt:1", dead := dead },
         if P.isSome && Q.isSome then "ok" else "builderr")
     | _, _, _, _, _ => (st, "bad-op")
-  | ["ask", dst, isResp, hasQ, name, qt, rx, ipTok, seed, ans] =>
+  | ["ask", dst, isResp, hasQ, name, qt, rx, ipTok, clTok, seed, ans] =>
     match dst.toNat?, parseName name, qt.toNat?, parseList "rx:" rx, parseList "seed:" seed,
-        parseList "ans:" ans, st.reqProg, st.respProg with
-    | some dst, some nm, some qt, some rx, some seed, some ans, some P, some Q =>
-      let q : Question := { name := nm, qtype := qt, rx := rx, isIp := ipTok == "ip:1" }
+        parseList "ans:" ans, st.reqProg, st.respProg, (dropS clTok 3).toNat? with
+    | some dst, some nm, some qt, some rx, some seed, some ans, some P, some Q, some cl =>
+      let q : Question := { name := nm, qtype := qt, rx := rx, isIp := ipTok == "ip:1", qclass := cl }
       let q? := if hasQ == "q" then some q else none
       match seed.mapM (parseSeed q), ans.mapM (parseAns q?) with
       | some seed, some tbl =>
-        let cfg : Cfg := { nUp := st.nUp, req := P, resp := Q, maxDepth := st.maxDepth }
-        let cache0 : Cache := seed.foldl (fun c e => Cache.store c e.1 e.2) st.cache
-        let o := handle cfg cache0 dst (isResp == "1") q? (ansFn tbl)
-        let st := { st with cache := o.cache }
+        let cfg : Cfg := { nUp := st.nUp, req := P, resp := Q, maxDepth := st.maxDepth, dead := st.dead }
+        let cache0 : Cache := seed.foldl (fun c e => Cache.store c e.1.1 e.1.2) st.cache
+        let stale0 : List CacheKey := seed.foldl (fun l e => if e.2 then e.1.1 :: l.erase e.1.1 else l.erase e.1.1) st.stale
+        let o : OutcomeO :=
+          if st.optimistic then handleOpt cfg cache0 stale0 dst (isResp == "1") q? (ansFn tbl)
+          else
+            let h := handle cfg cache0 dst (isResp == "1") q? (ansFn tbl)
+            ⟨h.trace, h.reply, h.cache, stale0⟩
+        let st := { st with cache := o.cache, stale := o.stale }
         let keys := (o.cache.map keyLine).mergeSort (fun a b => decide (a ≤ b))
         if st.explain then
           let q' := q?.getD noQuestion
           let sel := requestSelect cfg q'
           let fam := (cache0.filter fun e => e.1.name == canonName q'.name && e.1.qtype == q'.qtype).length
+          let key : UpRef → CacheKey := fun u => ⟨canonName q'.name, q'.qtype, scopeOf dst u, q'.qclass⟩
           let hit := match sel with
-            | .to u => (cache0.lookup ⟨canonName q'.name, q'.qtype, scopeOf dst u⟩).isSome
+            | .to u => (cache0.lookup (key u)).isSome
             | _ => false
-          (st, s!"ask route:{reqSelStr sel} cached-family:{if fam == 0 then "0" else "1+"} hit:{boolStr hit} queries:{o.trace.length} reply:{(replyStr o.reply).takeWhile (· != ':')}")
+          let stl := match sel with
+            | .to u => stale0.contains (key u) && hit
+            | _ => false
+          (st, s!"ask route:{reqSelStr sel} class:{if cl == 1 then "IN" else "other"} cached-family:{if fam == 0 then "0" else "1+"} hit:{boolStr hit} stale:{boolStr stl} queries:{o.trace.length} reply:{(replyStr o.reply).takeWhile (· != ':')}")
         else
         let errc := match o.reply with | .error e => errStr e | _ => "-"
         (st, s!"trace={",".intercalate (o.trace.map (upStr dst))} reply={replyStr o.reply} | cache={";".intercalate keys} err={errc}")
       | _, _ => (st, "bad-op")
-    | _, _, _, _, _, _, _, _ => (st, "bad-op")
+    | _, _, _, _, _, _, _, _, _ => (st, "bad-op")
+  | ["pair", name, qt, rx, recs] =>
+    -- two clients with different as-is resolvers ask the same question at the same time: each is resolved
+    -- at its own resolver (the singleflight key carries the scope)
+    match parseName name, qt.toNat?, parseList "rx:" rx, parseRecs recs, st.reqProg, st.respProg with
+    | some nm, some qt, some rx, some recs, some P, some Q =>
+      let q : Question := { name := nm, qtype := qt, rx := rx }
+      let cfg : Cfg := { nUp := st.nUp, req := P, resp := Q, maxDepth := st.maxDepth, dead := st.dead }
+      let ansF : Upstreams := fun _ _ => some { isResponse := true, q := some q, recs := recs, rcodeOk := true }
+      let o1 := handle cfg st.cache 1 false (some q) ansF
+      let o2 := handle cfg o1.cache 2 false (some q) ansF
+      let asked := ((o1.trace.map (upStr 1)) ++ (o2.trace.map (upStr 2))).mergeSort (fun a b => decide (a ≤ b))
+      ({ st with cache := o2.cache }, s!"asked={",".intercalate asked} r1={replyStr o1.reply} r2={replyStr o2.reply}")
+    | _, _, _, _, _, _ => (st, "bad-op")
   | _ => (st, "bad-op")
 
 end C07Drv
